@@ -8,5 +8,5 @@ CONSTANTS
     LatestEdition <- Code_LatestEdition
     Forms <- AllFormsD
     NightlyZero = "reject"
-INVARIANTS TypeOK FlagSound FlagMonotone EditionRule LatestEditionRule DefaultRule ParseRule ParseTotal ConstructMonotone
+INVARIANTS TypeOK FlagSound FlagMonotone EditionRule LatestEditionRule DefaultRule ParseRule ParseTotal ConstructMonotone SiteSound
 CHECK_DEADLOCK FALSE
